@@ -159,7 +159,7 @@ for tier, srcs, tg in (('quick', CAST_Q, CAST_Q), ('thorough', CAST_T, CAST_T)):
     for i in srcs:
         for sg, T in (('u', i.U), ('i', i.I)):
             nm = f"c09_from_{sg}_{i.tag}" + ('' if tier == 'quick' else '_all')
-            add(H('C09', nm, 'c09_from', f"26, {T}, {i.digit}, {i.n}; {_cast_targets(tg)}", tier=tier, inst=i.label,
+            add(H('C09', nm, 'c09_from', f"26, {T}, {i.digit}, {i.n}; {_cast_targets(tg)}", tier=tier, inst=i.label, seeded=(tier == 'thorough'),
                   funcs=f"As/CastFrom from {'BUint' if sg == 'u' else 'BInt'} {i.label} to {2 * len(tg)} bnum types (all digit types, wider/narrower/equal, both signs)",
                   bound='all source values, symbolic target bit index; unwind 26', cap=600))
 both('C09', 'c09_prim', CAST_Q + [I(64, 3)], [i for i in CAST_T if i not in CAST_Q + [I(64, 3)]] + [I(8, 17), I(64, 5)], signs=('x',), unwind=lambda i: max(i.n, 16) + 2,
@@ -171,7 +171,7 @@ for tier, srcs, tg in (('quick', CAST_Q, CAST_Q), ('thorough', CAST_T, CAST_T)):
     for i in srcs:
         for sg, T in (('u', i.U), ('i', i.I)):
             nm = f"c13_btry_{sg}_{i.tag}" + ('' if tier == 'quick' else '_all')
-            add(H('C13', nm, 'c13_btry', f"26, {T}, {i.digit}, {i.n}; {_cast_targets(tg)}", tier=tier, inst=i.label,
+            add(H('C13', nm, 'c13_btry', f"26, {T}, {i.digit}, {i.n}; {_cast_targets(tg)}", tier=tier, inst=i.label, seeded=(tier == 'thorough'),
                   funcs=f"BTryFrom from {'BUint' if sg == 'u' else 'BInt'} {i.label} into {2 * len(tg)} bnum types",
                   bound='all source values, symbolic target bit index; unwind 26', cap=600))
 both('C13', 'c13_prim', CAST_Q, [i for i in CAST_T if i not in CAST_Q] + [I(8, 17), I(64, 5)], signs=('x',), unwind=lambda i: max(i.n, 16) + 2,
@@ -469,6 +469,7 @@ for sg in ('u', 'i'):
     c10_str(I(8, 1), sg, 5, 8, 8, 'thorough')
     c10_str(I(8, 1), sg, 7, 3, 3, 'thorough')
     c10_str(I(8, 1), sg, 4, 2, 36, 'thorough', cap=5400)
+    c10_str(I(8, 2), sg, 5, 10, 10, 'quick', cap=1800)
     c10_str(I(8, 2), sg, 6, 16, 16, 'thorough', cap=5400)
     c10_str(I(8, 2), sg, 7, 10, 10, 'thorough', cap=5400)
     c10_str(I(8, 2), sg, 4, 2, 36, 'thorough', cap=5400)
@@ -502,7 +503,7 @@ for i, tier in ((I(8, 1), 'quick'), (I(64, 2), 'thorough')):
 import math
 
 
-def c11(i, sg, R, tier, what, vmax=0, cap=1800, core=False):
+def c11(i, sg, R, tier, what, vmax=0, cap=1800, core=False, seeded=False):
     """what: 'digits' (to_radix_le/be postcondition), 'rt' (+ round trip through from_radix_*), 'str' (to_str_radix postcondition), 'strrt' (+ parse round trip)"""
     T = i.U if sg == 'u' else i.I
     bits = i.bits if not vmax else vmax.bit_length()
@@ -512,7 +513,7 @@ def c11(i, sg, R, tier, what, vmax=0, cap=1800, core=False):
     with_str = 'true' if what in ('str', 'strrt') else 'false'
     rt = 'true' if what in ('rt', 'strrt') else 'false'
     add(H('C11', f"c11_{what}_{sg}_{i.tag}_r{R}", 'c11_radix', f"{max(maxd, i.bytes) + 3}, {T}, {i.digit}, {i.n}, {R}, {maxd}, {with_str}, {vmax}, {rt}",
-          tier=tier, cap=cap, inst=i.label, core=core, mem_gb=(8 if what in ('digits', 'str') else 16),
+          tier=tier, cap=cap, inst=i.label, core=core, seeded=seeded, mem_gb=(8 if what in ('digits', 'str') else 16),
           funcs=f"{'BUint' if sg == 'u' else 'BInt'}::to_radix_le/to_radix_be" + ('/to_str_radix' if with_str == 'true' else '') + (' + round trip through from_radix_*' + ('/from_str_radix' if with_str == 'true' else '') if rt == 'true' else ''),
           bound=('all values' if not vmax else f'all values <= {vmax}') + f', radix {R} (concrete)'))
 
@@ -528,7 +529,7 @@ for R in (10, 16):
     c11(I(8, 1), 'u', R, 'thorough', 'strrt', cap=5400)
 for R in range(2, 257):
     if R not in (2, 3, 7, 8, 10, 16, 32, 36, 100, 128, 255, 256):
-        c11(I(8, 1), 'u', R, 'thorough', 'digits')
+        c11(I(8, 1), 'u', R, 'thorough', 'digits', seeded=(R >= 5))
     if R <= 36 and R not in (2, 10, 16, 36):
         c11(I(8, 1), 'u', R, 'thorough', 'str')
 for R in (2, 3, 8, 36, 255, 256):
@@ -630,6 +631,9 @@ ASSUME = {
 }
 
 HOOK_COMMITS = ['42da9b2']
+
+# how many VERIF_SEED-chosen members of each seeded thorough family join the quick tier
+SEEDED_EXTRA = {'C11': 3, 'C09': 2, 'C13': 2}
 
 # per-property claim texts for MANIFEST.json
 def _claim(what, outside, oracle):
